@@ -13,6 +13,7 @@ import SkaModel.DriverSkf
 import SkaModel.DriverCov
 import SkaModel.DriverLo
 import SkaModel.Spec.BuildTable
+import SkaModel.Impl.BuildAndMerge
 import SkaModel.Impl.Reads
 import SkaModel.Spec.ReadsSpec
 
@@ -140,9 +141,9 @@ def runCase (c : Case) : String × String :=
     let m :=
       if built.any (fun b => match b with | .dict _ => false | _ => true) then "novalid"
       else
-        let sds : List SampleDict := built.zipIdx.map (fun bi =>
-          { k := k, rc := rc, idx := bi.2, name := s!"s{bi.2}", kmers := match bi.1 with | .dict d => d | _ => [] })
-        match buildAndMerge k rc (c.natOr "threads" 1) sds with
+        let raws : List RawSample := built.zipIdx.map (fun bi =>
+          { name := s!"s{bi.2}", kmers := match bi.1 with | .dict d => d | _ => [] })
+        match buildAndMergeOff k rc (c.natOr "threads" 1) raws with
         | .error _ => "refused"
         | .ok md =>
           let a := Arr.ofDict W md
@@ -155,7 +156,7 @@ def runCase (c : Case) : String × String :=
         let cols := tb.alignColumns t famb (siteFilterOf ft) mask gaps
         s!"align[names={joinStr names};cols={joinStr (sortStrings (cols.map strOf))}]"
     (m, sp)
-  | "lo_cmd" | "lo_comp" | "lo_snps" | "lo_mid" | "lo_out" | "lo_graph" => runLo c
+  | "lo_cmd" | "lo_comp" | "lo_snps" | "lo_mid" | "lo_derep" | "lo_out" | "lo_graph" => runLo c
   | "bam" =>
     let W := c.nat "w"
     let k := c.nat "k"
@@ -165,9 +166,9 @@ def runCase (c : Case) : String × String :=
     let m :=
       if built.any (fun b => match b with | .dict _ => false | _ => true) then "novalid"
       else
-        let sds : List SampleDict := built.zipIdx.map (fun bi =>
-          { k := k, rc := rc, idx := bi.2, name := s!"s{bi.2}", kmers := match bi.1 with | .dict d => d | _ => [] })
-        match buildAndMerge k rc (c.nat "threads") sds with
+        let raws : List RawSample := built.zipIdx.map (fun bi =>
+          { name := s!"s{bi.2}", kmers := match bi.1 with | .dict d => d | _ => [] })
+        match buildAndMergeOff k rc (c.nat "threads") raws with
         | .error _ => "refused"
         | .ok md => dumpArr (Arr.ofDict W md)
     let names := (List.range samples.length).map (fun i => s!"s{i}")
